@@ -271,7 +271,7 @@ pub fn run_memcheck(family: &str, prop: &str, tier: u8, seed: u64, total: usize,
         children.push(child);
     }
     // wall-clock budget of the lane: what has not completed by then is not judged (reported as such in the evidence)
-    let budget = Duration::from_secs(if tier == 0 { 240 } else { 1500 });
+    let budget = Duration::from_secs(if tier == 0 { 60 } else { 1500 });
     let mut died = 0;
     let mut stopped = 0;
     let mut running: Vec<Option<std::process::Child>> = children.into_iter().map(Some).collect();
